@@ -5,6 +5,7 @@ import (
 	"fmt"
 	"net"
 	"os"
+	"strconv"
 	"strings"
 	"sync"
 	"testing"
@@ -323,7 +324,11 @@ func runC14Inner(c *C14Case) (res c14Result) { //nolint:cyclop,gocyclo,maintidx
 			if err := old.Close(); err != nil {
 				return *fail("close-error", "Close of the relayed socket failed: %v", err)
 			}
-			time.Sleep(8 * time.Second)
+			wait := 8 * time.Second
+			if v, perr := strconv.Atoi(os.Getenv("VERIF_C14_REALLOC_WAIT_MS")); perr == nil && v > 0 {
+				wait = time.Duration(v) * time.Millisecond // experiment: re-allocate while the old socket's transactions may still be retransmitted
+			}
+			time.Sleep(wait)
 			<-done
 			nr, aerr := cl.Allocate()
 			if aerr != nil {
